@@ -111,6 +111,13 @@ fn any_dwarf_map() -> DwarfRegisterMap {
     DwarfRegisterMap(SmallVec::from_buf(buf))
 }
 
+fn val(dm: &DwarfRegisterMap, i: u16) -> Option<u64> {
+    match dm.value(gimli::Register(i)) {
+        Ok(v) => Some(v),
+        Err(e) => { core::mem::forget(e); None }
+    }
+}
+
 #[kani::proof]
 #[kani::unwind(130)]
 fn c05_map_update() {
@@ -119,10 +126,10 @@ fn c05_map_update() {
     let j: u16 = kani::any();
     kani::assume(i < 0x80 && j < 0x80 && i != j);
     let v: u64 = kani::any();
-    let before_j = dm.value(gimli::Register(j)).ok();
+    let before_j = val(&dm, j);
     dm.update(gimli::Register(i), v);
-    assert!(dm.value(gimli::Register(i)).ok() == Some(v), "C05.map_update.E1 update(r,v) then value(r) == v");
-    assert!(dm.value(gimli::Register(j)).ok() == before_j, "C05.map_update.E2 frame: every other register unchanged");
+    assert!(val(&dm, i) == Some(v), "C05.map_update.E1 update(r,v) then value(r) == v");
+    assert!(val(&dm, j) == before_j, "C05.map_update.E2 frame: every other register unchanged");
     core::mem::forget(dm);
 }
 
@@ -134,10 +141,10 @@ fn c05_map_update_from() {
     let other = any_dwarf_map();
     let j: u16 = kani::any();
     kani::assume(j < 0x80);
-    let o_j = other.value(gimli::Register(j)).ok();
-    let s_j = dm.value(gimli::Register(j)).ok();
+    let o_j = val(&other, j);
+    let s_j = val(&dm, j);
     dm.update_from(&other);
-    assert!(dm.value(gimli::Register(j)).ok() == o_j.or(s_j), "C05.map_update_from.E1 update_from takes the incoming value where present and keeps the old one otherwise");
+    assert!(val(&dm, j) == o_j.or(s_j), "C05.map_update_from.E1 update_from takes the incoming value where present and keeps the old one otherwise");
     core::mem::forget((dm, other));
 }
 
